@@ -133,7 +133,7 @@ func (node *Node) popAndProcessCacheQueue() int {
 			node.sendTransactionsToNode([]crypto.Hash{hash}, nbor)
 			continue
 		}
-		batchSize += tx.ValidatedSize()
+		batchSize += len(tx.Marshal())
 		if tx.IsSnapshotBatchable() && batchSize < p2p.TransportMessageMaxSize*2/3 {
 			batch = append(batch, hash)
 			continue
